@@ -362,6 +362,9 @@ pub fn run(args: &[String]) -> ! {
         } else if case["kind"] == "pairing" {
             let p = crate::c14_bytes::pairings(if case["tier"] == "thorough" { Tier::Thorough } else { Tier::Quick });
             p.violations.into_iter().filter(|(_, _, c)| c["document"] == case["document"] && c["variant"] == case["variant"]).map(|(f, w, _)| (f, w)).collect()
+        } else if case["kind"] == "version-list" {
+            let p = crate::c14_bytes::pairings(Tier::Thorough);
+            p.violations.into_iter().filter(|(_, _, c)| c["kind"] == "version-list" && c["text"] == case["text"]).map(|(f, w, _)| (f, w)).collect()
         } else if let Some(fam) = case["family"].as_str() {
             nesting_violations(fam, case["depth"].as_u64().unwrap_or(1) as usize).1
         } else {
@@ -527,7 +530,7 @@ pub fn run(args: &[String]) -> ! {
     ctx.finish(
         cov,
         vec![
-            "text half: every accepted text is resolved against the empty package set and, if that succeeds, encoded with default options; byte half: every prefix, single-bit flip and single-byte substitution by {00,01,7F,80,FF} of the library components and repository fixtures is decoded with Package::from_bytes (and, when it decodes, instantiated and encoded in both modes) in supervised worker processes; pairings: 5 documents x each referenced package {missing, replaced by each other package, 50/400 evenly spaced byte mutants}".into(),
+            "text half: every accepted text is resolved against the empty package set and, if that succeeds, encoded with default options; byte half: every prefix, single-bit flip and single-byte substitution by {00,01,7F,80,FF} of the library components and repository fixtures is decoded with Package::from_bytes (and, when it decodes, instantiated and encoded in both modes) in supervised worker processes; pairings: 5 documents x each referenced package {missing, replaced by each other package, 50/400 evenly spaced byte mutants}; version lists: every ordered list of 1..3 (thorough 4) of the 13 packages of the versioned-import library instantiated with implicit arguments".into(),
             "in-process cases are run under catch_unwind; inputs that can exhaust the stack (nesting families) run in supervised worker processes on a thread with an 8 MiB stack".into(),
             "`&str` inputs only: byte faults that would produce invalid UTF-8 are not representable and are replaced by whole-character substitutions".into(),
         ],
